@@ -309,3 +309,33 @@ theorem sz_free_branch {n sites : Nat} {more less : Nat → Nat} (hm : MapsOK n 
       exact (hmem _ I).mpr ⟨h1, h2, by omega, rfl⟩
 
 end OFV.C10
+
+namespace OFV.C10
+open OFV.Model OFV.Model.C10 OFV.Spec OFV.Spec.C10
+
+theorem sz_indices_spec_fixed' (sz : Rat) (n ne : Nat) (up down : Nat → Nat) (l : List Nat)
+    (h : jwSzIndices sz n (some ne) up down = .ok l) (hm : MapsOK n (n / 2) up down) :
+    ∃ numUp numDown : Nat, numUp + numDown = ne ∧ ((numUp : Int) - numDown = (2 * sz).num) ∧ (2 * sz).den = 1 ∧
+      l.Nodup ∧ ∀ I, I ∈ l ↔
+        I < 2 ^ n ∧
+        (∀ k, k < n → occAt n I k = true → ∃ s, s < n / 2 ∧ (k = up s ∨ k = down s)) ∧
+        ((List.range (n / 2)).filter fun s => occAt n I (up s)).length = numUp ∧
+        ((List.range (n / 2)).filter fun s => occAt n I (down s)).length = numDown := by
+  unfold jwSzIndices at h
+  split at h
+  · cases h
+  · split at h
+    · cases h
+    · next hden =>
+      simp only at h
+      split at h
+      · cases h
+      · next hcond =>
+        simp only [Except.ok.injEq] at h
+        subst h
+        simp only [Bool.or_eq_true, bne_iff_ne, ne_eq, decide_eq_true_eq, not_or, Decidable.not_not,
+          Int.not_lt] at hcond
+        refine ⟨(((ne : Int) + (2 * sz).num) / 2).toNat, ne - (((ne : Int) + (2 * sz).num) / 2).toNat,
+          by omega, by omega, by simpa using hden, nodup_szPairs_comb hm _ _, fun I => mem_szPairs_comb hm _ _ I⟩
+
+end OFV.C10
